@@ -128,8 +128,8 @@ inductive WriteResult where
   deriving Repr, DecidableEq
 
 /-- capacity of the two `ArrayVec<[u8; 2048]>` in `write_impl` -/
-def TOKEN_BUFFER_CAP : Nat := lits_write_impl.getD 0 0
-def COMPRESSION_BUFFER_CAP : Nat := lits_write_impl.getD 1 0
+def TOKEN_BUFFER_CAP : Nat := WRITE_TOKEN_BUFFER_SIZE
+def COMPRESSION_BUFFER_CAP : Nat := WRITE_COMPRESSION_BUFFER_SIZE
 
 def ofNat3 (x : Nat × Nat × Nat) : List UInt8 := [UInt8.ofNat x.1, UInt8.ofNat x.2.1, UInt8.ofNat x.2.2]
 def ofNat2 (x : Nat × Nat) : List UInt8 := [UInt8.ofNat x.1, UInt8.ofNat x.2]
@@ -219,7 +219,7 @@ def writeChunks (t : Huffman.Table) (ack : Nat) (token : Option Token) (requestR
 def writeConnless (payload : List UInt8) (cap : Nat) : WriteResult :=
   if payload.length > CONNLESS_WRITE_LIMIT then .tooLongData
   else match bufWrite cap [] (List.replicate (HEADER_SIZE + PADDING_SIZE_CONNLESS)
-                                (UInt8.ofNat (bytelits_write_connless_packet.getD 0 0))) with
+                                (UInt8.ofNat CONNLESS_PADDING_BYTE)) with
     | none => .capacity
     | some b1 =>
       match bufWrite cap b1 payload with
